@@ -23,6 +23,10 @@ def gen_cases(rng, n, tier):
     out = []
     for _ in range(n):
         k = rng.random()
+        if rng.random() < 0.04:
+            # object history: the same object is rendered, changed in place, rendered again (numlib.big_history / num_history)
+            out.append(N.big_history(rng, maxl=min(maxl, 4)) if rng.random() < 0.5 else N.num_history(rng, maxl=2))
+            continue
         if k < 0.6:
             base = rng.choice([2, 3, 7, 8, 10, 10, 16, 16, 35, 36, rng.randint(2, 36), rng.randint(2, 36)])
             r = rng.random()
@@ -98,6 +102,6 @@ def main(tier, seed):
     }
     assumptions = ['Python digit loop is the oracle for base conversion', 'base 1 and digits not below the base are outside the claim and never generated',
                    'NaN equality is not judged: NaN must read back as NaN']
-    minimum = {'evaluations': (n, 3000), 'bases': (len(bases), 30), 'rational:nan': (hist.get('rational:nan', 0), 30),
+    minimum = {'evaluations': (n, 3000), 'object histories': (hist.get('object_history', 0), 300), 'bases': (len(bases), 30), 'rational:nan': (hist.get('rational:nan', 0), 30),
                'negative fractions': (hist.get('rational:neg_frac', 0), 100)}
     return rep.finish(cov, assumptions, t0, minimum)
